@@ -103,6 +103,10 @@ def run(name, budget):
                              env=env, capture_output=True, text=True, timeout=1800)
         sigs = [ln.split('signature=')[1].split()[0] for ln in out.stdout.splitlines() if 'signature=' in ln]
         verdict = 'CAUGHT' if out.returncode == 1 else 'MISSED (exit %d)' % out.returncode
+        if out.returncode != 1 and rel == 'REVERT' and str(new).startswith('neutralised'):
+            # the defect this commit repaired can no longer occur because a later repair closed its window
+            # (reason in selftest/mutants.d/reverts.json); silence is the right answer
+            verdict = 'NEUTRALISED-BY-LATER-REPAIR (exit %d)' % out.returncode
         return name, prop, '%s %s' % (verdict, ','.join(sigs[:4]))
     finally:
         shutil.rmtree(d, ignore_errors=True)
@@ -122,7 +126,7 @@ def main():
         r = run(n, budget)
         print('%-34s %-4s %s' % r, flush=True)
         res.append(r)
-    missed = [r for r in res if not r[2].startswith('CAUGHT')]
+    missed = [r for r in res if not r[2].startswith(('CAUGHT', 'NEUTRALISED'))]
     print('%d mutants, %d caught, %d not caught' % (len(res), len(res) - len(missed), len(missed)))
     return 1 if missed else 0
 
